@@ -127,7 +127,7 @@ def _record(res, sname, case, out):
         res.count('skipped_reference_not_finite')
     elif st == 'unsupported':
         res.count('unsupported_documented')
-        res.distinct('unsupported_classes', case['func'] + ':' + out.label)
+        res.count('unsupported:' + out.label)
     elif st == 'violation':
         w = _witness(sname, case)
         if out.batch:
@@ -154,11 +154,15 @@ def replay(w):
 def finalize(cov, tier):
     per = {}
     okper = {}
+    unsup = {}
     for k in list(cov):
         if k.startswith('fn:'):
             per[k[3:]] = cov.pop(k)
         elif k.startswith('ok:'):
             okper[k[3:]] = cov.pop(k)
+        elif k.startswith('unsupported:'):
+            unsup[k[12:]] = cov.pop(k)
+    cov['unsupported_documented_classes'] = unsup
     handled = _handled()
     unc = uncovered()
     never = sorted(n for n in handled if n in cases.GENERATORS and not okper.get(n))
